@@ -232,7 +232,8 @@ CHECKS = {
                      "(B) differential on section bytes: every byte string of N bytes (and fixed prefixes with free tails reaching "
                      "the digest vectors) through PackInfo/UnpackInfo/SubstreamsInfo._read and through the reference parser, both "
                      "interpreted on the same symbolic bytes: what the reference accepts, py7zr accepts with the same meaning and "
-                     "the same number of bytes consumed.",
+                     "the same number of bytes consumed; and the state just read, written back by the section's own write(), means "
+                     "the same to the reference again (read -> write -> reference).",
                 note=RD_NOTE),
     "C07": dict(engine=B, ref="DESIGN.md §3 (C07)",
                 technique="bounded symbolic execution of the real write path (writestr/write/close, Header.write, SignatureHeader) "
